@@ -655,14 +655,34 @@ def rule_R2(ed, src, parts, method, ordinal):
         if t.kind == "ident" and t.text == method and toks[k - 1].text == ".":
             j = _next_sig(toks, k + 1, bc)
             if toks[j].text == "(":
-                c = _next_sig(toks, j + 1, bc)
-                if toks[c].text == "|" or (toks[c].text == "move"):
-                    hits.append((k, j))
+                hits.append((k, j))
     if ordinal > len(hits):
         raise ExtractError("lost anchor: R2 %s #%d not found in %s:%d" % (method, ordinal, src.rel, src.line_of(toks[bo].start)))
     k, popen = hits[ordinal - 1]
     pclose = match_close(toks, popen)
     bar1 = _next_sig(toks, popen + 1, pclose)
+    if toks[bar1].text not in ("|", "move"):
+        # a function path instead of a closure literal: apply it
+        if method not in ("map", "and_then"):
+            raise ExtractError("R2: %s with a path argument is not handled (%s:%d)" % (method, src.rel, src.line_of(toks[k].start)))
+        last = pclose - 1
+        while toks[last].kind in ("ws", "comment"):
+            last -= 1
+        path = src.text[toks[bar1].start:toks[last].end]
+        dot_k = k - 1
+        r0 = _receiver_start(toks, dot_k, bo + 1)
+        while toks[r0].kind in ("ws", "comment"):
+            r0 += 1
+        j = dot_k - 1
+        while toks[j].kind in ("ws", "comment"):
+            j -= 1
+        recv = src.text[toks[r0].start:toks[j].end]
+        if method == "map":
+            new = "match %s { Some(verif_x) => Some(%s(verif_x)), None => None }" % (recv, path)
+        else:
+            new = "match %s { Some(verif_x) => %s(verif_x), None => None }" % (recv, path)
+        ed.replace(toks[r0].start, toks[pclose].end, new, "R2", "%s with a function path -> match" % method)
+        return
     if toks[bar1].text == "move":
         bar1 = _next_sig(toks, bar1 + 1, pclose)
     bar2 = bar1 + 1
@@ -1252,17 +1272,13 @@ class Unit:
                 if len(m) != 2:
                     raise ExtractError("%s: bad //@subst `%s`" % (label, arg))
                 substs.append((m[0], m[1]))
-        for (old, new) in substs:
-            want = [t.text for t in significant(tokenize(old))]
-            ks = sig_indices(toks, hs, b)
-            x = 0
-            while x + len(want) <= len(ks):
-                if [toks[ks[x + y]].text for y in range(len(want))] == want:
-                    ed.replace(toks[ks[x]].start, toks[ks[x + len(want) - 1]].end, new, "R6", "path re-rooted")
-                    x += len(want)
-                else:
-                    x += 1
         text, log = ed.render()
+        # R6 path re-rooting: token-sequence replacement over the rendered item
+        for (old, new) in substs:
+            t2 = _subst_text(text, old, new)
+            if t2 != text:
+                log.append({"rule": "R6", "line": src.line_of(ed.lo), "before": old, "after": new, "note": "path re-rooted (every occurrence in the item)"})
+            text = t2
         item_src = src.text[ed.lo:ed.hi]
         self.report["items"].append({
             "label": label,
